@@ -23,7 +23,7 @@ type Gen struct {
 }
 
 func NewGen(r *rand.Rand, depth int) *Gen {
-	return &Gen{R: r, MaxDepth: depth, Params: []string{"n", "arr", "obj", "s", "f"}, Faulty: 12,
+	return &Gen{R: r, MaxDepth: depth, Params: []string{"n", "arr", "obj", "s", "f", "big"}, Faulty: 12,
 		scopes: [][]string{{}}, Stats: map[string]int{}}
 }
 
@@ -254,7 +254,12 @@ func (g *Gen) Expr(d int) *E {
 		g.count("expr:like")
 		subj := []*E{Str("abc"), Str("a"), Str(""), Str("abbc"), Param("s"), Str("x y"), Str("10"), g.Leaf()}[g.pick(8)]
 		pat := []string{"a*", "*c", "a?c", "*", "??", "abc", "a*c", "", "x*y", "1?", "*b*"}[g.pick(11)]
-		return &E{K: "like", Neg: g.pick(3) == 0, A: subj, B: Str(pat)}
+		var pe *E = Str(pat)
+		if vis := g.visible(); len(vis) > 0 && g.pick(3) == 0 {
+			pe = Var(vis[len(vis)-1-g.pick(min(2, len(vis)))]) // a recently bound variable: loops over patterns exercise one LIKE node with many patterns
+			g.count("like:variable-pattern")
+		}
+		return &E{K: "like", Neg: g.pick(3) == 0, A: subj, B: pe}
 	case n == 25:
 		// =~ / !~ with a regular expression from the modelled subset
 		g.count("expr:regex")
@@ -270,8 +275,23 @@ func (g *Gen) Expr(d int) *E {
 	}
 }
 
+func min(a, b int) int {
+	if a < b {
+		return a
+	}
+	return b
+}
+
 func (g *Gen) forSource(d int) *E {
 	vis := g.visible()
+	if g.pick(14) == 0 {
+		// patterns, for LIKE with a variable pattern
+		return Arr(Str("a*"), Str("*c"), Str("??"), Str("*"), Str("abc"))
+	}
+	if g.pick(12) == 0 {
+		g.count("for:big-source")
+		return Param("big")
+	}
 	switch n := g.pick(10); {
 	case n < 3:
 		k := g.pick(4)
